@@ -620,6 +620,7 @@ pub const RPROBES: &[&str] = &[
     "interrupted_between_cr_and_lf",
     "interrupted_on_eof_call",
     "interrupted_burst_ge_3",
+    "interrupted_burst_ge_33",
     "scribble_fired",
     "scribble_on_eof_call",
     "one_byte_at_a_time_whole_input",
@@ -700,6 +701,9 @@ pub fn delivery_probes(input: &[u8], trace: &Trace, out: &ExecOut, buf: usize, h
     }
     if out.log.max_burst >= 3 {
         hit("interrupted_burst_ge_3");
+    }
+    if out.log.max_burst >= 33 {
+        hit("interrupted_burst_ge_33");
     }
     if out.log.scribbles > 0 {
         hit("scribble_fired");
